@@ -65,6 +65,7 @@ type FuncContract struct {
 	PanicsIf    []Clause
 	Extern      bool           // declared in an ext (.gowp) file
 	Ghosts      []GhostLoopVar // function-level ghost variables
+	SingleTx    bool           // single_transaction: all database writes happen inside exactly one walletdb.Update
 	GhostSets   []GhostLoopVar // ghostset $v := e: ghost statement executed on entry of the function (scalar ghost variables)
 	UnblocksOn  []Expr         // every blocking channel operation must be able to fire a receive on one of these channels
 	Durable     bool           // a durable step: callers assert their crash invariant after it
@@ -141,7 +142,7 @@ var labelRe = regexp.MustCompile(`^([A-Za-z][A-Za-z0-9_\-]*):(?:[^:]|$)`)
 var clauseKW = map[string]bool{
 	"requires": true, "ensures": true, "modifies": true, "loop": true, "assume-only": true, "pure": true,
 	"inline": true, "assert": true, "assume": true, "props": true, "noframe": true, "fresh": true, "panics_if": true, "ghost": true,
-	"durable": true, "crashstates": true, "havoc": true, "guards": true, "invariant": true, "unblocks_on": true, "ghostset": true,
+	"durable": true, "crashstates": true, "havoc": true, "guards": true, "invariant": true, "unblocks_on": true, "ghostset": true, "single_transaction": true,
 }
 var topKW = map[string]bool{
 	"func": true, "define": true, "abstract": true, "sort": true, "axiom": true, "ghost": true, "package": true, "ignore": true, "implements": true,
@@ -465,6 +466,8 @@ func ParseSpecFile(path string, pkgPath string) (*SpecFile, error) {
 			cur.UnblocksOn = append(cur.UnblocksOn, locs...)
 		case "durable":
 			cur.Durable = true
+		case "single_transaction":
+			cur.SingleTx = true
 		case "crashstates":
 			cl, err := mkClause(rest, it.line)
 			if err != nil {
